@@ -248,3 +248,17 @@ def h5(ctx: Ctx) -> None:
     from .c04 import r6 as removal_rule
 
     removal_rule(ctx)
+
+
+@rule("C03.H6", "necessary for `never raises`: orders of non-positive volume never reach a book (the walk asserts a positive volume)", "T6 decision table (same rule as C04.R9)", floor=1)
+def h6(ctx: Ctx) -> None:
+    from .c04 import r9 as ctor_rule
+
+    ctor_rule(ctx)
+
+
+@rule("C03.H7", "necessary for `never raises`: two orders of a market never share an id (the price rule of the walk asserts it on equal acceptance times)", "T1 + T7 (same rule as C02.R7)", floor=2)
+def h7(ctx: Ctx) -> None:
+    from .c02 import check_order_ids
+
+    check_order_ids(ctx)
